@@ -74,6 +74,11 @@ class Emitter:
         if op in ("lt", "le", "eq"):
             t = self.need_v(b.args[0])
             return {"lt": f"(< {t} 0.0)", "le": f"(<= {t} 0.0)", "eq": f"(= {t} 0.0)"}[op]
+        if op == "var":
+            nm = "b_" + "".join(ch if ch.isalnum() else "_" for ch in str(b.args[0]))
+            self._opaque_bools = getattr(self, "_opaque_bools", set())
+            self._opaque_bools.add(nm)
+            return nm
         if op == "not":
             return f"(not {self.bool_term(b.args[0])})"
         if op in ("and", "or"):
@@ -119,11 +124,14 @@ class Emitter:
             ax.append(f"(assert (= {s} (ite (> {a} 0.0) 1.0 (ite (< {a} 0.0) (- 1.0) 0.0))))")
         elif kind == "pow":
             base = self.need_v(args[0])
+            ex = self.need_v(args[1])
+            # axioms of real powers (trusted): positivity and position relative to 1
             ax.append(f"(assert (=> (> {base} 0.0) (> {s} 0.0)))")
-            e = args[1]
-            if e.is_const():
-                # monotonicity in the base for a constant exponent is added pairwise by callers
-                pass
+            ax.append(f"(assert (=> (and (> {base} 0.0) (< {base} 1.0) (> {ex} 0.0)) (< {s} 1.0)))")
+            ax.append(f"(assert (=> (and (>= {base} 1.0) (> {ex} 0.0)) (>= {s} 1.0)))")
+            ax.append(f"(assert (=> (and (> {base} 0.0) (< {base} 1.0) (< {ex} 0.0)) (> {s} 1.0)))")
+            ax.append(f"(assert (=> (and (>= {base} 1.0) (< {ex} 0.0)) (<= {s} 1.0)))")
+            ax.append(f"(assert (=> (= {base} 1.0) (= {s} 1.0)))")
         elif kind == "exp":
             ax.append(f"(assert (> {s} 0.0))")
         for a in args:
